@@ -445,6 +445,31 @@ def check(ctx):
     for rule, key, ok, where, what, detail in sub.got:
         if rule in ('R5.2-record-before-update', 'R5.2-record-condition', 'R9.3-rules-first'):
             ctx.ob('R7.4-first-row', '%s/%s' % (rule, key), ok, where, what, detail)
+    # "never fails from inside": what the simulators call on model objects must be implemented for every concrete class -
+    # rule operations in plain and volume mode (C09 R9.2-operation-slot), re-emitted here
+    sub = SubCtx(ctx)
+    c09.check_rule_slots(sub)
+    for rule, key, ok, where, what, detail in sub.got:
+        ctx.ob('R7.2-concrete-rule-ops', key, ok, where, what, detail)
+    # the same for the other model objects the simulators call into: every leaf class of these families executes a real body
+    families = {'Propensity': ('get_propensity', 'get_volume_propensity', 'get_stochastic_propensity', 'get_stochastic_volume_propensity'),
+                'Delay': ('get_delay',), 'Term': ('evaluate', 'volume_evaluate')}
+    n_leaf = 0
+    for base, slots in families.items():
+        for cls in sorted(prog.subclasses(base)):
+            if prog.subclasses(cls) or prog.classes[cls].module != 'types':
+                continue
+            n_leaf += 1
+            bad = []
+            for slot in slots:
+                dc, fn = prog.resolve_method(cls, slot)
+                body = [s for s in (fn.body if fn is not None else []) if not (isinstance(s, ast.Expr) and isinstance(s.value, ast.Constant))]
+                if fn is None or (body and isinstance(body[0], ast.Raise)):
+                    bad.append('%s executes %s.%s, which only raises' % (cls, dc, slot))
+            ctx.ob('R7.2-concrete-model-ops', cls, not bad, '%s' % prog.mods['types'].rel,
+                   'every evaluation slot of the leaf class %s resolves to a real body (no abstract method is reached at run time)' % cls, '; '.join(bad))
+    if n_leaf < 25:
+        raise AnalysisError('anchor vanished: only %d leaf propensity/delay/term classes found' % n_leaf)
     ctx.floor('R7.1-option-lattice', 256)
     ctx.floor('R7.2-concrete-simulator', 5)
     ctx.floor('R7.3-constructor', 8)
